@@ -1528,12 +1528,15 @@ def phase1(ctx, case, area='C01'):
         if initial is None:
             if 'cold-start' not in [t[:10] for t in PRIVATE_TROUBLE]:
                 PRIVATE_TROUBLE.append('cold-start centers of kmedoids() are not observable through its first '
-                                       'n_clusters metric calls any more')
+                                       'n_clusters metric calls any more (%s)' % '; '.join(COLD_START_NOTE))
             ctx.tag('model-skipped-cold-start-unobservable')
             return rec
     oracle = oracle_positions(out['log']) if out.get('log') else []
     rec['rq'] = model_request(P, case, oracle=oracle, initial=initial, area=area)
     return rec
+
+
+COLD_START_NOTE = []
 
 
 def cold_start_centers(P, case):
@@ -1550,36 +1553,40 @@ def cold_start_centers(P, case):
             seen.append(P.frame_id(y))
         return base(X_, y)
     rs0 = RecRS(case['seed']) if case.get('rs') == 'rec' else case.get('seed')
+    err = None
     try:
         with quiet_logs():
             km.kmedoids(P.X, recording, n_clusters=k, n_iters=1, random_state=rs0)
-    except Exception:  # noqa
-        pass
+    except Exception as e:  # noqa
+        err = '%s: %s' % (type(e).__name__, str(e)[:160])
     if len(seen) != k or any(i is None for i in seen) or len(set(seen)) != k:
+        COLD_START_NOTE[:] = ['saw %s as the first metric targets%s' % (seen, '; the call raised ' + err if err else '')]
         return None
     return [int(i) for i in seen]
 
 
 def _safely(ctx, what, case, fn, private=False):
-    """run a harness step that calls into the real code; an unexpected exception never escapes"""
+    """run a harness step; an unexpected exception never escapes.  Exceptions of the real PUBLIC entry points are
+    caught inside `run_real` (-> 'error' in its output -> a violation of that case, decided in phase1); whatever
+    arrives HERE was raised by harness / oracle / model-comparison code (or a helper call that only serves the
+    comparison), so it is never a concrete-input violation: it is recorded as a disagreement, with the traceback."""
     try:
         return fn()
     except Exception as e:  # noqa
         import traceback
-        where = traceback.format_exc().strip().split('\n')[-3:]
-        msg = '%s: unexpected %s (%s) at %s' % (what, type(e).__name__, str(e)[:160], ' | '.join(w.strip() for w in where))
-        if private:
-            ctx.disagreement(msg, dict(case))
-        else:
-            ctx.violation(msg, dict(case))
+        tb = traceback.format_exc()
+        where = tb.strip().split('\n')[-3:]
+        msg = '%s: harness-side %s (%s) at %s' % (what, type(e).__name__, str(e)[:160],
+                                                 ' | '.join(w.strip() for w in where))
+        ctx.disagreement(msg, dict(case, _traceback=tb[-1500:]))
         return None
 
 
 def check_cases(ctx, cases, area='C01', extra=None):
     """phase 1 on every case, one batched driver call, then the comparisons.
     `extra(ctx, rec, model_response_or_None)` lets C09 add its predicates.
-    No exception of the real code escapes: on a public entry point it is a violation of the case, in a step
-    that only serves the model comparison it is a disagreement."""
+    No exception escapes: one raised by a public entry point is caught in run_real and judged in phase1 (a
+    violation of that case); one raised by harness / oracle / comparison code is a disagreement (see _safely)."""
     del PRIVATE_TROUBLE[:]
     recs = []
     for c in cases:
